@@ -184,7 +184,7 @@ pub fn check(c: &Case) -> Outcome {
 }
 
 pub fn run(r: &mut Runner) {
-    r.rule = "cases: (untyped program of depth <= 7 whose identifiers and function names come from 12-name pools, some colliding with built-ins, placed in every syntactic position; which reported names a \
+    r.rule = "cases: (untyped program of depth <= 7, or a left-recursive chain of 30-90 sums / selects / indexes / method calls, whose identifiers and function names come from 12-name pools, some colliding with built-ins, placed in every syntactic position; which reported names a \
               partial context defines; Context::default()- or Context::empty()-based). Each program runs against the partial context and against a context defining every reported variable and \
               function (stubs taking Arguments). Oracle: UndeclaredReference(n) implies n is reported; with everything reported defined the result is never UndeclaredReference; every reported variable is an \
               identifier written in the source and none starts with '@'; references() is the same before and after execution. Non-trivial: >= 3 distinct names in >= 3 distinct positions and the partial run ended in UndeclaredReference; distinct by (source, masks)."
@@ -201,6 +201,34 @@ pub fn run(r: &mut Runner) {
         |u: &mut Chooser| {
             let depth = 1 + u.below(6);
             Case { expr: gen_untyped(u, depth, &pool), var_mask: u.bits64(), fn_mask: u.bits64() | if u.flip() { u64::MAX } else { 0 }, base_default: u.flip(), value_kind: u.below(5) as u8 }
+        },
+        check,
+    );
+    // long left-recursive chains (sums, selects, indexes, method calls): the trees are 30-90 levels deep although the text nests nothing
+    r.random(
+        "long-chains",
+        40,
+        n / 10,
+        |u: &mut Chooser| {
+            use crate::model::expr::{b, Op};
+            let len = 30 + u.below(61);
+            let name = |k: usize| E::Var(format!("v{k}"));
+            let mut e = name(0);
+            let kind = u.below(5);
+            for k in 1..len {
+                let step = if kind == 4 { u.below(4) } else { kind };
+                e = match step {
+                    0 => E::bin(*u.pick(&[Op::Add, Op::Sub, Op::Mul]), e, name(k)),
+                    1 => E::Select(b(e), u.pick(&["a", "k", "f"]).to_string()),
+                    2 => E::Index(b(e), b(if u.flip() { name(k) } else { E::Lit(V::Int(0)) })),
+                    _ => E::Call(u.pick(&["f", "g", "size"]).to_string(), Some(b(e)), if u.flip() { vec![name(k)] } else { vec![] }),
+                };
+            }
+            // sometimes the chain hangs below another node
+            if u.chance(1, 3) {
+                e = E::List(vec![E::Var("w".into()), e]);
+            }
+            Case { expr: e, var_mask: u.bits64() & u.bits64(), fn_mask: u.bits64() | if u.flip() { u64::MAX } else { 0 }, base_default: u.flip(), value_kind: u.below(5) as u8 }
         },
         check,
     );
